@@ -327,13 +327,13 @@ pub fn list_header(header: &str) -> Vec<ValueQualitySet<'_>> {
         if byte == ',' {
             let quality = header
                 .get(quality_start_byte..position)
-                .and_then(|quality| quality.parse().ok())
+                .and_then(|quality| trim_ows(quality).parse().ok())
                 .unwrap_or(1.0);
             if let Some(accept) =
                 header.get(start_byte..if end_byte == 0 { position } else { end_byte })
             {
                 list.push(ValueQualitySet {
-                    value: accept,
+                    value: trim_ows(accept),
                     quality,
                 });
             }
@@ -350,7 +350,7 @@ pub fn list_header(header: &str) -> Vec<ValueQualitySet<'_>> {
     // Last, when reaches EOF
     let quality = header
         .get(quality_start_byte..)
-        .and_then(|quality| quality.parse().ok())
+        .and_then(|quality| trim_ows(quality).parse().ok())
         .unwrap_or(1.0);
     if let Some(accept) = header.get(
         start_byte..if end_byte == 0 {
@@ -360,11 +360,16 @@ pub fn list_header(header: &str) -> Vec<ValueQualitySet<'_>> {
         },
     ) {
         list.push(ValueQualitySet {
-            value: accept,
+            value: trim_ows(accept),
             quality,
         });
     }
     list
+}
+/// Removes the optional whitespace (space and horizontal tab) HTTP allows around list members
+/// and before and after the `;` of a weight.
+fn trim_ows(s: &str) -> &str {
+    s.trim_matches(|c| c == ' ' || c == '\t')
 }
 
 /// A key-value pair in the query.
